@@ -196,6 +196,55 @@ def reload_stage(res: Result, CallTrace, CallTraceRow) -> None:
     res.oblige("trace:reload-between-decodes", True)
 
 
+def store_stage(res: Result, ctx, CallTrace) -> None:
+    """Every fixture function x {no argument types, one argument type} x return in {absent, NoneType, a type} x yield in
+    {absent, NoneType, a type}, written through SQLiteStore.add (in two batches) and read back with filter(): exactly the
+    traces that were added come back, as the same functions with the same four slots."""
+    import collections
+
+    from monkeytype.db.sqlite import SQLiteStore
+
+    path = str(ctx.tmp / f"c08_store_{__import__('os').getpid()}.sqlite3")
+    st = SQLiteStore.make_store(path)
+    slots = [None, O.NoneType, int]
+    want = collections.Counter()
+    traces = []
+    for fname, func in fixture_funcs():
+        if fname == "lam":
+            continue
+        for args in ({}, {"x": str}):
+            for r in slots:
+                for y in slots:
+                    traces.append(CallTrace(func, dict(args), r, y))
+                    want[(fname, tuple(sorted((n, O.struct(t)) for n, t in args.items())), None if r is None else O.struct(r), None if y is None else O.struct(y))] += 1
+    st.add(traces[::2])
+    st.add(iter(traces[1::2]))
+    by_func = {id(f): n for n, f in fixture_funcs()}
+    got = collections.Counter()
+    problems = []
+    for mod_ in st.list_modules():
+        for row in st.filter(mod_, None, 100000):
+            try:
+                t = row.to_trace()
+            except Exception as e:  # noqa: BLE001
+                problems.append(f"row {row.module}:{row.qualname} does not decode: {e!r}")
+                continue
+            got[(by_func.get(id(t.func), repr(t.func)), tuple(sorted((n, O.struct(x)) for n, x in t.arg_types.items())), None if t.return_type is None else O.struct(t.return_type), None if t.yield_type is None else O.struct(t.yield_type))] += 1
+    st.conn.close()
+    res.states += len(traces)
+    res.transitions += len(traces)
+    res.evaluations += 1
+    res.validated += len(traces)
+    missing = [k for k in want if k not in got]
+    extra = [k for k in got if k not in want]
+    case = {"what": "store", "tier": "quick"}
+    if problems:
+        res.violate(Violation(ID, "exception", "store:decode", case, problems[0]))
+    if missing or extra:
+        res.violate(Violation(ID, "trace", "store-round-trip", case, f"{len(traces)} traces written through SQLiteStore and read back: missing {missing[:3]} (of {len(missing)}), unexpected {extra[:3]} (of {len(extra)})"))
+    res.oblige("trace:through-the-store", True)
+
+
 def all_types(tier: str) -> List[Any]:
     from monkeytype.typing import get_type
 
@@ -279,6 +328,7 @@ def run(ctx: Ctx) -> Result:
                 res.oblige(f"trace:{fname}", True)
         if si == 0:
             reload_stage(res, CallTrace, CallTraceRow)
+            store_stage(res, ctx, CallTrace)
         res.extra["types"] = len(types)
         res.extra["traces"] = len(combos)
         return res
@@ -289,6 +339,7 @@ def run(ctx: Ctx) -> Result:
     for fname, _ in fixture_funcs():
         res.obligations.setdefault(f"trace:{fname}", False)
     res.obligations.setdefault("trace:reload-between-decodes", False)
+    res.obligations.setdefault("trace:through-the-store", False)
     res.bounds.update({"tier": ctx.tier})
     return res
 
@@ -302,6 +353,10 @@ def replay(case: Dict[str, Any], ctx: Ctx) -> List[Violation]:
     if case["what"] == "reload":
         r = Result()
         reload_stage(r, CallTrace, CallTraceRow)
+        return r.violations
+    if case["what"] == "store":
+        r = Result()
+        store_stage(r, ctx, CallTrace)
         return r.violations
     if case["what"] == "type":
         v = check_type(types[case["index"]], (type_to_json, type_from_json))
